@@ -105,6 +105,21 @@ def g_pieces_attr(maxlen):
     return out
 
 
+def g_pieces_attr_in_entity(maxlen):
+    """the same piece sequences as the value of an attribute of an element that itself comes from an entity's
+    replacement text: the attribute literal is then replacement text, so referenced white space is normalised too"""
+    out = []
+    ents = dict(ATTR_ENTITIES)
+    pieces = [x for x in ATTR_PIECES if x != "Q"]
+    for l in range(0, maxlen + 1):
+        for w in itertools.product(range(len(pieces)), repeat=l):
+            src = "".join(pieces[i] for i in w)
+            exp = spec.norm_attr(src, ents, depth=1)
+            dtd = "<!DOCTYPE r [" + "".join('<!ENTITY %s "%s">' % (n, v) for n, v in ATTR_ENTITIES) + "<!ENTITY w \"<a k='" + src + "'/>\">]>"
+            out.append(Case(dtd + "<r>&w;</r>", "c", True, meta={"gen": "pieces-attr-in-entity-element", "src": src, "expect_attr": exp}))
+    return out
+
+
 # ---------------------------------------------------------------------------------------------
 # fixtures, prefixes, mutations
 # ---------------------------------------------------------------------------------------------
@@ -356,6 +371,17 @@ def g_long(flags="nc", counts=None):
         e = spec.Elem("", "r", [("p" if a.startswith("p:") else "", a.split("=")[0].split(":")[-1], a.split("'")[1]) for a in attrs], [("p", "u")], [])
         out.append(Case("<r xmlns:p='u' " + " ".join(attrs) + "/>", flags, True,
                         meta={"gen": "long-attributes-shared-local", "k": k, "expect_content": spec.expected_content(e)}))
+        # k top-level references (in k different elements) to an entity that itself contains a nested reference:
+        # the budget of nested references is per top-level reference, not per document
+        ndtd = "<!DOCTYPE r [<!ENTITY mark '<m/>'><!ENTITY cell '<i>&mark;</i><!--end-->'>]>"
+        out.append(Case(ndtd + "<r>" + "<row>&cell;</row>" * k + "</r>", flags, True, meta={"gen": "long-nested-entity-rows", "k": k, "wellformed": "nested references in %d separate elements" % k}))
+        # the same expanded name twice, through two prefixes bound to one URI, far apart in a long list: a duplicate
+        dup = ["a:x='1'"] + ["y%d='v'" % i for i in range(k)] + ["b:x='2'"]
+        out.append(Case("<r xmlns:a='urn:same' xmlns:b='urn:same' " + " ".join(dup) + "/>", flags, True,
+                        meta={"gen": "long-attributes-dup-expanded", "k": k, "illformed": "duplicate attribute by expanded name (two prefixes, one URI) in a list of %d" % (k + 2)}))
+        dup2 = ["y%d='v'" % i for i in range(k)] + ["x='1'", "x='2'"]
+        out.append(Case("<r " + " ".join(dup2) + "/>", flags, True,
+                        meta={"gen": "long-attributes-dup", "k": k, "illformed": "duplicate attribute at the end of a list of %d" % (k + 2)}))
         out.append(Case("<r>" + "<!--c-->" * k + "<?p v?>" * k + "</r>", flags, True, meta={"gen": "long-misc", "k": k}))
         out.append(Case("<" + "n" * k + " " + "a" * k + "='" + "v" * k + "'>" + "t" * k + "</" + "n" * k + ">", flags, True, meta={"gen": "long-names", "k": k}))
         out.append(Case("<r a='" + "x&#32;" * k + "' b='" + " \t" * k + "'/>", flags, True, meta={"gen": "long-attr-value", "k": k}))
